@@ -106,6 +106,22 @@ fn enum_cut_perturb(t: Tier, shard: usize, n: usize, f: &mut dyn FnMut(Bytes) ->
                 }
             }
         }
+        // every value of every RDLENGTH from 0 to natural + 2 (the bytes stay where they are, so the frame
+        // ends inside a field, inside an address, inside a name ...)
+        if let Ok(w) = walk(m) {
+            for r in &w.records {
+                for v in 0..=(r.rdlen + 2).min(300) {
+                    if v == r.rdlen {
+                        continue;
+                    }
+                    let mut x = m.clone();
+                    x[r.rdata_off - 2..r.rdata_off].copy_from_slice(&(v as u16).to_be_bytes());
+                    if !f(Bytes(x)) {
+                        return;
+                    }
+                }
+            }
+        }
         // the four section counts: +1, max
         for c in 0..4 {
             for v in [1u16, 2, 0xffff, 0x100] {
@@ -114,6 +130,44 @@ fn enum_cut_perturb(t: Tier, shard: usize, n: usize, f: &mut dyn FnMut(Bytes) ->
                 let cur = u16::from_be_bytes([x[o], x[o + 1]]);
                 x[o..o + 2].copy_from_slice(&cur.wrapping_add(v).to_be_bytes());
                 if !f(Bytes(x)) {
+                    return;
+                }
+            }
+        }
+    }
+}
+
+// ---- 1b. many records of one type in one large message (superlinear behaviour per record)
+
+fn enum_many(t: Tier, shard: usize, n: usize, f: &mut dyn FnMut(Bytes) -> bool) {
+    let mut rdatas: Vec<ARData> = Vec::new();
+    for code in typed_codes() {
+        rdatas.push(default_typed(code));
+        rdatas.push(ARData::Empty { code });
+    }
+    rdatas.push(ARData::Unknown { code: 99, data: Bytes(vec![0]) });
+    let counts = t.pick(vec![400usize, 2500], vec![400, 2500, 5000]);
+    let mut i = 0;
+    for rd in rdatas {
+        for section in 0..3usize {
+            for count in &counts {
+                i += 1;
+                if !mine(i, shard, n) {
+                    continue;
+                }
+                let rec = ARecord { name: AName(vec![]), class: 1, cache_flush: false, ttl: 0, rdata: rd.clone() };
+                let one = {
+                    let mut p = APacket::default();
+                    p.answers.push(rec.clone());
+                    encode_message(&p, &EncOpts::plain())[12..].to_vec()
+                };
+                let k = (*count).min(65000 / one.len().max(1));
+                let mut m = vec![0u8; 12];
+                m[6 + 2 * section..8 + 2 * section].copy_from_slice(&(k as u16).to_be_bytes());
+                for _ in 0..k {
+                    m.extend_from_slice(&one);
+                }
+                if !f(Bytes(m)) {
                     return;
                 }
             }
@@ -404,7 +458,7 @@ fn check_mutated(input: &Mutated, case: &mut Case) -> Result<(), Fail> {
 pub fn def() -> CheckDef {
     CheckDef {
         id: "C01",
-        rule: "byte strings fed to Packet::parse and to the 8 header-peek functions under panic capture, a per-thread heap meter (bound 64 KiB + 1024*len; hard cap 1 GiB) and a thread-CPU-time watchdog (5 s, confirmed at 20 s): (1) every truncation and every single-byte perturbation {-1,+1,0,0xff,^0x80,|0xc0,&0x3f} plus section-count edits of reference encodings of all 40 types/unknown/NULL/empty in single and multi-record, plain and compressed form, OPT at each additional position; (2) all buffers of length 0..=4 over 7 symbols and lengths 5..=13; (3) 3 fixed headers x all bodies of length <= 6 (7 thorough) over a 12-symbol alphabet; (4) generated pointer graphs (chains, self/forward/absolute pointers, up to 64 KiB); (5) reference encodings with random compression and 0..8 random mutations. Non-trivial = at least a 12-byte header with Z clear (the parser reaches the sections); distinct by hash of the input",
+        rule: "byte strings fed to Packet::parse and to the 8 header-peek functions under panic capture, a per-thread heap meter (bound 64 KiB + 1024*len; hard cap 1 GiB) and a thread-CPU-time watchdog (5 s, confirmed at 20 s): (1) every truncation and every single-byte perturbation {-1,+1,0,0xff,^0x80,|0xc0,&0x3f} plus section-count edits of reference encodings of all 40 types/unknown/NULL/empty in single and multi-record, plain and compressed form, OPT at each additional position, every RDLENGTH value from 0 to natural+2; (1b) for each type (typed, empty, unknown) messages holding 400 / 2500 (5000 thorough) records of that one type in each section; (2) all buffers of length 0..=4 over 7 symbols and lengths 5..=13; (3) 3 fixed headers x all bodies of length <= 6 (7 thorough) over a 12-symbol alphabet; (4) generated pointer graphs (chains, self/forward/absolute pointers, up to 64 KiB); (5) reference encodings with random compression and 0..8 random mutations. Non-trivial = at least a 12-byte header with Z clear (the parser reaches the sections); distinct by hash of the input",
         assumptions: vec![
             "time is asserted only coarsely (CPU watchdog): the decoder's cost is bounded by the backwards-only pointer rule and the 255-byte name budget, measured maxima are reported under coverage.maxima",
             "heap bound calibrated on the densest legitimate input (a 2-byte pointer expanding to 127 labels: ~515 heap bytes per input byte)",
@@ -412,6 +466,7 @@ pub fn def() -> CheckDef {
         sections: vec![
             Box::new(ReplayOnly { name: "bytes", check: check_bytes }),
             Box::new(EnumSection { name: "cut-perturb", rule: "truncations and perturbations of reference encodings", enumerate: enum_cut_perturb, check: check_bytes, exhaustive: true }),
+            Box::new(EnumSection { name: "many-records", rule: "hundreds to thousands of records of one type", enumerate: enum_many, check: check_bytes, exhaustive: true }),
             Box::new(EnumSection { name: "short", rule: "all short buffers", enumerate: enum_short, check: check_bytes, exhaustive: true }),
             Box::new(EnumSection { name: "bodies", rule: "bounded-exhaustive bodies", enumerate: enum_bodies, check: check_bytes, exhaustive: true }),
             Box::new(PropSection { name: "graphs", rule: "pointer graphs", strategy: graph_strategy, cases: (100_000, 1_000_000), check: check_graph }),
